@@ -113,15 +113,19 @@ PROPS: Dict[str, Dict[str, Any]] = {
                          "C05_knr_invalid", "C05_user", "C05_always", "C05_map_valid", "C05_map_invalid",
                          "C05_recursive_terminates", "run_mono", "Run.unique",
                          "src_union_sync", "src_union_async", "src_union_uses", "unionSync_eq", "unionAsync_eq",
-                         "uBody_exec", "uforFold_union"],
-            "modules": ["KodaModel.Properties.C05", "KodaModel.Properties.C05Src"],
+                         "uBody_exec", "uforFold_union",
+                         "src_maybe", "src_knr", "src_lazy", "src_always", "src_none", "src_isDict", "src_wrap_pins"],
+            "modules": ["KodaModel.Properties.C05", "KodaModel.Properties.C05Src", "KodaModel.Properties.C05Wrap"],
             "level_note": "the union loop is tied to the source twice: (1) TRANSLATOR - harness/pysrc.py rewrites "
                           "Generated/UnionSrc.lean from the AST of _union_validator / _union_validator_async (_internal.py; "
                           "UnionValidator and OptionalValidator only delegate to them: src_union_uses) on every run, and "
                           "src_union_sync / src_union_async prove that interpreting the translated loop (KodaModel/PyUnion.lean: "
                           "for / early return / append, both ways of calling a variant) is the model's unionStep for every list "
-                          "of variants of either flavour and every input; (2) the correspondence stream.  Maybe / Lazy / "
-                          "KeyNotRequired / cache wrappers: hand-modelled, correspondence only",
+                          "of variants of either flavour and every input; likewise Generated/WrapSrc.lean for MaybeValidator, "
+                          "KeyNotRequired, Lazy, AlwaysValid, NoneValidator and IsDictValidator (KodaModel/PyWrap.lean; src_maybe, "
+                          "src_knr, src_lazy, src_always, src_none, src_isDict: each translated method is the model's step, both "
+                          "entry points); (2) the correspondence stream.  Cache wrappers and Valid.map / Invalid.map: "
+                          "hand-modelled, correspondence only",
             "stream": "core", "opts": {"salt": "c05", "gen": ["streams", "gen_wrapper_case"]},
             "quick_n": 6000, "thorough_n": 100000, "fields": ["out", "trace"]},
     "C06": {"modules": ["KodaModel.Properties.C06", "KodaModel.Properties.C06Sync"],
